@@ -72,9 +72,9 @@ fn observed(imports: &[usize], decls: &[usize], body: usize) -> Document {
     d
 }
 
-fn make_case(imports: &[usize], decls: &[usize], body: usize, ctx: usize, h: History) -> Case {
+fn make_case(imports: &[usize], decls: &[usize], body: usize, ctx: usize, h: History, commented: bool) -> Case {
     let mut files = support(ctx);
-    files.push(ProjFile::from_doc("obs", observed(imports, decls, body)));
+    files.push(ProjFile::from_doc_styled("obs", observed(imports, decls, body), commented));
     let oi = files.len() - 1;
     let exp = expect_observed(&files, oi);
     let doc = files[oi].doc.as_ref().unwrap();
@@ -149,7 +149,7 @@ pub fn run(tier: Tier, seed: u64) -> i32 {
                 }
                 let h = if (ii + di) % 7 == 0 { hist[((ii + di) / 7) % 4] } else { History::Plain };
                 stats.nontrivial(fnv(&format!("{imports:?}{decls:?}{body}{ctx}")));
-                let c = make_case(&imports, &decls, body, ctx, h);
+                let c = make_case(&imports, &decls, body, ctx, h, (ii + di) % 4 == 3);
                 if i % 3001 == 0 {
                     stats.sample(json!({"label": c.label, "observed_file": c.files.last().unwrap().1}));
                 }
